@@ -13,9 +13,11 @@ EXTENDS Integers, Sequences, FiniteSets, TLC
 CONSTANTS N,          \* number of time points 0..N-1 (0 is the origin)
           Atoms,      \* set of records [id, from, to, d] : 'to - from <= d'
           MaxLevel,
-          SavePredBug \* TRUE reproduces set_pred saving 'from' instead of the old predecessor (pinned-tree behaviour)
+          SavePredBug,\* TRUE reproduces set_pred saving 'from' instead of the old predecessor (pinned-tree behaviour)
+          Scale       \* 1: integer difference logic (the negation of 'to - from <= d' is 'from - to <= -d - 1');
+                      \* K > 1: real difference logic with the infinitesimal as 1/K (the negation is 'from - to <= -d - eps')
 
-Inf == 1000
+Inf == 100000
 P == 0..(N - 1)
 NoPred == 99
 AtomById(i) == CHOOSE a \in Atoms : a.id = i
@@ -30,7 +32,7 @@ Init ==
   /\ val = [a \in Atoms |-> "U"] /\ layers = <<>> /\ hist = <<>> /\ lastOp = <<"init">>
 
 \* ---- the asserted constraints and their exact closure (reference) ---------------------------------------------------
-EdgeOf(a, v) == IF v = "T" THEN <<a.from, a.to, a.d>> ELSE <<a.to, a.from, -a.d - 1>>
+EdgeOf(a, v) == IF v = "T" THEN <<a.from, a.to, a.d * Scale>> ELSE <<a.to, a.from, -(a.d * Scale) - 1>>
 Edges(vl) == {EdgeOf(a, vl[a]) : a \in {b \in Atoms : vl[b] # "U"}}
 MinOf(S) == IF S = {} THEN Inf ELSE CHOOSE x \in S : \A y \in S : x <= y
 Plus(x, y) == IF x >= Inf \/ y >= Inf THEN Inf ELSE x + y
